@@ -261,13 +261,18 @@ class YModRT:
         for t in fixed_texts(tier):
             for which in (0, 1, 2):
                 L.append("ymod\t%d\t%s" % (which, hexs(t)))
+                if b"'" not in t:
+                    L.append("ymod\t%d\t%s" % (which + 4, hexs(t)))
         for _ in range(self.n(tier, 600, 30000, scale)):
-            L.append("ymod\t%d\t%s" % (rng.randrange(3), hexs(yang_text(rng, rare=0.02))))
+            t = yang_text(rng, rare=0.02)
+            # +4: the module is written with s single-quoted and verbatim (the only way a CR gets in)
+            sq_in = 4 if (b"'" not in t and rng.random() < 0.3) else 0
+            L.append("ymod\t%d\t%s" % (rng.randrange(3) + sq_in, hexs(t)))
         return L
 
     def judge(self, line, out):
         f = line.split("\t")
-        which, s = int(f[1]), unhex(f[2])
+        which, s = int(f[1]) & 3, unhex(f[2])
         if out == "E":
             return None                       # the context does not accept the module
         if out == "X":
